@@ -318,6 +318,14 @@ func (c *FnCtx) assign(st *State, lhs ast.Expr, val *Term) {
 		if !isRepoStruct(baseT) {
 			c.unsupportedf(lhs, "write to a field of an external struct value")
 		}
+		// a boxed local struct lives in the heap: write just the field
+		if id, ok := ast.Unparen(l.X).(*ast.Ident); ok {
+			if v, ok := c.info.ObjectOf(id).(*types.Var); ok && !c.isGlobal(v) && c.boxed[v] {
+				name := c.ts.sortOf(baseT)
+				c.heapWrite(st, fieldHeapName(name, f.Name()), c.ts.sortOf(f.Type()), st.vars[v], val)
+				return
+			}
+		}
 		// value struct: functional update of the containing location
 		base := c.eval(st, l.X)
 		c.assign(st, l.X, c.structSet(base, s, path[0], val))
@@ -573,6 +581,7 @@ type frameItem struct {
 // loopFrame states, for the arrays havocked as a whole, that locations allocated before the loop are unchanged.
 func (c *FnCtx) loopFrame(st *State, items []frameItem, entryAlloc *Term) []*Term {
 	var out []*Term
+	c.lastFrameNames = nil
 	for _, it := range items {
 		cur := st.heap[it.name]
 		if cur == nil || cur.String() == it.entry.String() {
@@ -581,6 +590,7 @@ func (c *FnCtx) loopFrame(st *State, items []frameItem, entryAlloc *Term) []*Ter
 		c.quantN++
 		r := leaf(fmt.Sprintf("lf!%d", c.quantN), SInt)
 		out = append(out, mkForall([]Bound{{r.Op, SInt}}, mkImplies(mkAnd(mkLe(intLit(0), r), mkLe(r, entryAlloc)), mkEq(mkSelect(cur, r), mkSelect(it.entry, r))), []*Term{mkSelect(cur, r)}))
+		c.lastFrameNames = append(c.lastFrameNames, it.name)
 	}
 	return out
 }
@@ -613,6 +623,9 @@ func (c *FnCtx) havocWrites(st *State, log *writeLog) []frameItem {
 		variant[c.smt.decls[i].Name] = true
 	}
 	for _, v := range vs {
+		if c.boxed[v] {
+			continue // the variable holds a stable reference to its cell
+		}
 		if t, ok := st.vars[v]; ok {
 			symbolsOf(t.String(), variant)
 		}
@@ -686,16 +699,29 @@ func (c *FnCtx) checkInvs(st *State, ls *LoopSpec, kind string, site ast.Node, o
 	if ls == nil {
 		return
 	}
+	if kind == "inv-init" {
+		ls.entry = st.clone()
+	}
+	saveEntry := c.curEntry
+	c.curEntry = ls.entry
+	defer func() { c.curEntry = saveEntry }()
+	// later invariants may use earlier ones (each is proved before it is used)
+	save := len(st.pc)
 	for i, inv := range ls.Invs {
 		g := c.specEvalAt(st, inv.Expr, env, c.pre, site)
 		c.oblige(st, kind, site, fmt.Sprintf("loop%d.%d", ord, i+1), inv.Text, g)
+		st.pc = append(st.pc, g)
 	}
+	st.pc = st.pc[:save]
 }
 
 func (c *FnCtx) assumeInvs(st *State, ls *LoopSpec, site ast.Node, env map[string]*Term) {
 	if ls == nil {
 		return
 	}
+	saveEntry := c.curEntry
+	c.curEntry = ls.entry
+	defer func() { c.curEntry = saveEntry }()
 	for _, inv := range ls.Invs {
 		st.pc = append(st.pc, c.specEvalAt(st, inv.Expr, env, c.pre, site))
 	}
@@ -723,6 +749,9 @@ func (c *FnCtx) execFor(st *State, x *ast.ForStmt) []Out {
 		}
 	})
 	entryAlloc := c.pre.alloc
+	if ls != nil && ls.FrameEntry {
+		entryAlloc = st.alloc
+	}
 	frames := c.havocWrites(st, log)
 	useFrame := ls != nil && ls.Frame
 	if useFrame {
@@ -760,7 +789,7 @@ func (c *FnCtx) execFor(st *State, x *ast.ForStmt) []Out {
 			c.checkInvs(s, ls, "inv-step", x, ord, env)
 			if useFrame {
 				for k, g := range c.loopFrame(s, frames, entryAlloc) {
-					c.oblige(s, "inv-step", x, fmt.Sprintf("loop%d.frame%d", ord, k+1), "loop frame: locations allocated before the loop are unchanged", g)
+					c.oblige(s, "inv-step", x, fmt.Sprintf("loop%d.frame%d", ord, k+1), "loop frame: locations allocated before the loop are unchanged in "+c.lastFrameNames[k], g)
 				}
 			}
 			if dec0 != nil {
@@ -902,6 +931,9 @@ func (c *FnCtx) execRange(st *State, x *ast.RangeStmt) []Out {
 		c.execBlock(s, x.Body.List)
 	})
 	entryAlloc := c.pre.alloc
+	if ls != nil && ls.FrameEntry {
+		entryAlloc = st.alloc
+	}
 	frames := c.havocWrites(st, log)
 	useFrame := ls != nil && ls.Frame
 	if useFrame {
@@ -936,7 +968,7 @@ func (c *FnCtx) execRange(st *State, x *ast.RangeStmt) []Out {
 			c.checkInvs(o.st, ls, "inv-step", x, ord, env2)
 			if useFrame {
 				for k, g := range c.loopFrame(o.st, frames, entryAlloc) {
-					c.oblige(o.st, "inv-step", x, fmt.Sprintf("loop%d.frame%d", ord, k+1), "loop frame: locations allocated before the loop are unchanged", g)
+					c.oblige(o.st, "inv-step", x, fmt.Sprintf("loop%d.frame%d", ord, k+1), "loop frame: locations allocated before the loop are unchanged in "+c.lastFrameNames[k], g)
 				}
 			}
 		case FBreak:
